@@ -478,7 +478,11 @@ class RVData:
 
     def __copy__(self):
         return self.__class__(
-            t=self.t.copy(), rv=self.rv.copy(), rv_err=self.rv_err.copy()
+            t=self.t.copy(),
+            rv=self.rv.copy(),
+            rv_err=self.rv_err.copy(),
+            # t_ref=False is how a disabled reference epoch is requested
+            t_ref=False if self.t_ref is None else self.t_ref,
         )
 
     def copy(self):
